@@ -511,6 +511,22 @@ impl<'r, 'a> Collector<'r, 'a> {
         }
         let open = body.brace_token.span.open().byte_range();
         let close = body.brace_token.span.close().byte_range();
+        // R15: `if C { continue; }` directly in a for-loop body -> `if !(C) { rest of the body }`
+        // (Verus for-loops do not support `continue`); the loop-end proof text stays outside the
+        // new block, so it is checked on both paths
+        if self.rw.on("R15") && iter_expr.is_some() {
+            for st in &body.stmts {
+                if let syn::Stmt::Expr(syn::Expr::If(ife), _) = st {
+                    let only_continue = ife.else_branch.is_none() && ife.then_branch.stmts.len() == 1 && matches!(&ife.then_branch.stmts[0], syn::Stmt::Expr(syn::Expr::Continue(c), _) if c.label.is_none());
+                    if only_continue {
+                        let cond = self.render(&ife.cond);
+                        self.edits.push(Edit { range: rng(st), text: format!("if !({cond}) {{"), prio: 0 });
+                        self.edits.push(Edit { range: close.start..close.start, text: "}\n".to_string(), prio: 8 });
+                        self.rw.log.push(format!("R15 `if {{..}} {{ continue; }}` in loop {key} -> if-not around the rest of the body"));
+                    }
+                }
+            }
+        }
         if !hdr.is_empty() {
             self.edits.push(Edit { range: open.start..open.start, text: hdr, prio: 0 });
         }
@@ -616,6 +632,27 @@ impl<'ast, 'r, 'a> Visit<'ast> for Collector<'r, 'a> {
                 let body = self.render(&cl.body);
                 self.rw.log.push(format!("R13 binary_search_by closure hoisted as {key}"));
                 self.edits.push(Edit { range: rng(e), text: format!("{{ let __bs_f = {sig}{hdr} {body}; {bs} __binary_search_by({recv}, __bs_f) }}"), prio: 0 });
+            }
+            // R14: expression-level `ITER.map(|p| B).collect()` into a boxed slice (error payloads)
+            //   -> __collect_boxed({ let mut __v = Vec::new(); for p in ITER { __v.push(B); } __v })
+            syn::Expr::MethodCall(m)
+                if m.method == "collect" && self.rw.on("R14") && m.args.is_empty() && m.turbofish.is_none() && is_method(&m.receiver, "map").map_or(false, |mp| mp.args.len() == 1 && matches!(mp.args[0], syn::Expr::Closure(_))) =>
+            {
+                let mp = is_method(&m.receiver, "map").unwrap();
+                let cl = match &mp.args[0] {
+                    syn::Expr::Closure(c) => c,
+                    _ => unreachable!(),
+                };
+                if cl.capture.is_some() || cl.inputs.len() != 1 || closure_has_control_flow(&cl.body) {
+                    die("unsupported", &format!("{}: R14 side condition violated (move closure / several params / control flow in body)", self.rw.fn_path));
+                }
+                let key = self.rw.next_key("R14");
+                let (iter, hdr, bs, be) = self.rw.loop_parts(&key);
+                let pat = self.rw.text(&cl.inputs[0]).to_string();
+                let recv = self.render(&mp.receiver);
+                let body = self.render(&cl.body);
+                self.rw.log.push(format!("R14 ..map(..).collect() into a boxed slice -> loop {key} + __collect_boxed"));
+                self.edits.push(Edit { range: rng(e), text: format!("__collect_boxed({{ let mut __v = Vec::new(); for {pat} in {iter}{recv} {hdr}{{ {bs}__v.push({body}); {be}}} __v }})"), prio: 0 });
             }
             // R12: M.entry(K).or_default().insert(V)  ->  __entry_or_default_insert(M, K, V)
             // side condition: M is a `&mut` binding (implicit reborrow; rustc rejects anything else)
